@@ -58,7 +58,8 @@ class Sink:
         cls = type(p)
         cache = p.CLASS_LEVEL_CACHE
         self.events.append({"ev": ev, "pos": self.pos.get(cls.__name__, 0), "cache": cache_owner(cls), "mod": f["module"].name or "",
-                            "ndone": len(cache.done), "pending": sorted(m.name or "" for m in cache.pending)})
+                            "ndone": len(cache.done), "pending": sorted(m.name or "" for m in cache.pending),
+                            "elab": getattr(f["module"], "_elaborated", None) is not None})
 
 
 def digest(pkg):
